@@ -9,7 +9,7 @@ use crate::kernel::price_lookup::PriceLookup;
 use crate::model::{Commodity, Posting, Transaction};
 use jiff::Zoned;
 use jiff::tz::TimeZone;
-use rust_decimal::{Decimal, RoundingStrategy};
+use rust_decimal::Decimal;
 use std::cmp::{Ordering, max};
 use std::fmt::Write;
 use std::fmt::{Display, Formatter};
@@ -73,11 +73,7 @@ impl RegisterEntry<'_> {
         reg_cfg: &RegisterSettings,
     ) -> String {
         fn amount_to_string(amount: &Decimal, scale: &Scale, width: usize) -> String {
-            let prec = scale.get_precision(amount);
-            let amount_txt = format!(
-                "{:.prec$}",
-                amount.round_dp_with_strategy(prec as u32, RoundingStrategy::MidpointAwayFromZero)
-            );
+            let amount_txt = scale.format(amount);
 
             if amount.is_sign_positive() && amount_txt.chars().count() >= width {
                 format!(" {}", amount_txt)
